@@ -482,6 +482,21 @@ def run_cases(ctx, res: Result, cases, label, snaps=None, sample_pathof=0.1, cou
             metas.append(case)
             continue
         im, dup = impl_lists(d)
+        if snaps is None and (res.evaluations % 3 == 0 or label == "replay"):
+            # the same pair through DirectorySnapshotDiff.ContextManager (two snapshots of ONE path, taken on entry and on exit)
+            root = ROOT.encode() if asb else ROOT
+            va, vb = VFS(case["A"], root), VFS(case["B"], root)
+            cur = [va]
+            cm = DirectorySnapshotDiff.ContextManager(root, recursive=rec, stat=lambda q: cur[0].stat(q),
+                                                      listdir=lambda q: cur[0].listdir(q), ignore_device=ign)
+            with cm:
+                cur[0] = vb
+            im2, _ = impl_lists(cm.diff)
+            res.hist("context_manager", True)
+            if im2 != im:
+                res.failures.append(Failure(
+                    what="DirectorySnapshotDiff.ContextManager yields another diff than DirectorySnapshotDiff(pre, post, ignore_device)",
+                    case=case, signature={"law": "context-manager", "ign": ign}, observed=str(im2)[:600], expected=str(im)[:600]))
         if dup:
             res.mismatches.append(Mismatch(pair="DirectorySnapshotDiff list without duplicates", case=case, model="sets", impl=str(im)))
         lines.append(f"(diff {int(ign)} {wr} {ws})")
